@@ -13,7 +13,7 @@ import (
 )
 
 func init() {
-	register("C10", "Structural clauses that keep the pruning shortcuts of the filtered walk unobservable, decided on all paths of filterFS.Walk's callback: every pattern-based SkipDir exit is unreachable unless the entry is a directory, the matching prefix-only flag is set and the matcher's verdict is the pruning one; every path-containment prefix test is separator-terminated; match infos of the include and exclude matcher are never crossed; the user callback is unreachable for an entry a matcher rejected, is preceded by the map function on the same stat when one is set, and is unreachable in the iteration where the map function said exclude/skip; lazily emitted ancestors are marked before they are reported and not reported twice. The wildcard test that allows text-level pruning looks for '*', '?' and '['. Does not decide equivalence with the reference filter for all pattern lists, the flag computation, or patternmatcher itself.", runC10)
+	register("C10", "Structural clauses that keep the pruning shortcuts of the filtered walk unobservable, decided on all paths of filterFS.Walk's callback: every pattern-based SkipDir exit is unreachable unless the entry is a directory, the matching prefix-only flag is set and the matcher's verdict is the pruning one; every path-containment prefix test is separator-terminated; match infos of the include and exclude matcher are never crossed; the user callback is unreachable for an entry a matcher rejected, is preceded by the map function on the same stat when one is set, and is unreachable in the iteration where the map function said exclude/skip; lazily emitted ancestors are marked before they are reported and not reported twice. The wildcard test that allows text-level pruning looks for '*', '?' and '['. Nothing - no pending ancestor either - is reported before the map function was asked about the entry that causes the reports. Does not decide equivalence with the reference filter for all pattern lists, the flag computation, or patternmatcher itself.", runC10)
 }
 
 func runC10(c *Ctx) {
@@ -770,6 +770,35 @@ func r10_4(c *Ctx, rule string) {
 		}
 	}
 	c.R.Floor(rule, "report sites in filterFS.Walk", n, 2)
+	// the entry's own verdict comes first: nothing - no pending ancestor
+	// either - is reported before the map function was asked about the entry
+	// that causes the reports (an entry the map function drops must not leave
+	// its ancestors behind)
+	var ownMaps []*ssa.Call
+	for _, mc := range c.P.CallsTo(lit, "field:fsutil.filterFS.mapFn") {
+		cl, ok := mc.(*ssa.Call)
+		if !ok || len(lit.Params) < 2 {
+			continue
+		}
+		if c.DerivesFrom(cl.Call.Args[1], func(v ssa.Value) bool {
+			ic, isC := v.(*ssa.Call)
+			return isC && ic.Common().IsInvoke() && ic.Common().Method.Name() == "Info" && eng.Strip(ic.Common().Value) == ssa.Value(lit.Params[1])
+		}, 6) {
+			ownMaps = append(ownMaps, cl)
+		}
+	}
+	if len(ownMaps) == 0 {
+		c.R.OK(rule, c.name(lit)+"/own-verdict-first", c.P.Pos(lit.Pos()), "no map call on the stat of the callback's own entry of a shape this rule interprets")
+	} else {
+		c.ObPrecedes(rule, c.name(lit)+"/own-verdict-first", lit, set, func(in ssa.Instruction) bool {
+			for _, m := range ownMaps {
+				if in == ssa.Instruction(m) {
+					return true
+				}
+			}
+			return false
+		}, func(in ssa.Instruction) bool { return c.P.IsCallTo(in, "freevar:fn") }, "mapFn on the entry's own stat", "a report (of the entry or of a pending ancestor)")
+	}
 }
 
 func r10_5(c *Ctx, rule string) {
